@@ -6,7 +6,7 @@ import (
 	"sort"
 )
 
-const c06Rule = "(half of the end-to-end cases over TWO range fields) range fields: expressions > a, < b, between [l,h) and in{..}, each as include or exclude, bounds from {small values, +-2^62 and +-2^62-+1, adjacent/identical/nested/overlapping intervals}, narrow ranges (< 256 wide: expanded to values) and wide ranges (interval index), multi-valued assignments (ints, numeric strings, floats) at every boundary +-1, on the k-groups and compact indexes; through the hook: RangeIdx insert histories of 0..8 ranges (piece list before Compile compared piece by piece with the model, Retrieve probed at every boundary +-1 after Compile); thorough adds every history of <= 3 ranges over bounds {-2..3}. Non-trivial = some query returns a non-empty proper subset of the documents (end to end) / the history has at least two overlapping ranges (histories); distinct = distinct input"
+const c06Rule = "(half of the end-to-end cases over TWO range fields) range fields: expressions > a, < b, between [l,h) and in{..}, each as include or exclude, bounds from {small values, +-2^62 and +-2^62-+1, adjacent/identical/nested/overlapping intervals}, narrow ranges (< 256 wide: expanded to values) and wide ranges (interval index), multi-valued assignments (ints, numeric strings, floats) at every boundary +-1, on the k-groups and compact indexes; through the hook: RangeIdx insert histories of 0..8 ranges (piece list before Compile compared piece by piece with the model, Retrieve probed at every boundary +-1 after Compile); thorough adds every history of <= 3 ranges over bounds {-2..3}. cached builds of conjunctions with two range fields; RangeIdx histories over configured domains [min,max) with ranges ending at, starting at, straddling and outside the domain; Non-trivial = some query returns a non-empty proper subset of the documents (end to end) / the history has at least two overlapping ranges (histories); distinct = distinct input"
 
 type histIn struct {
 	Hist   bool       `json:"hist"`
@@ -140,6 +140,39 @@ func rangeSplitCases(add func(in interface{})) {
 	}
 }
 
+// rangeCachedCases: builders with a cache provider, conjunctions cached because of one long expression and carrying
+// TWO range fields (between/between of equal width and spelling length, >/<, in/in) -- builds served from the cache
+// must index each field with its own range
+func rangeCachedCases(add func(in interface{})) {
+	ints := func(k, off int) TV {
+		l := make([]TV, k)
+		for i := range l {
+			l[i] = tvInt("int64", int64(off+i))
+		}
+		return tvSlice("[]int64", l...)
+	}
+	btw := func(f int, a, b int64) eExpr {
+		return eExpr{F: f, Inc: true, Op: 3, V: tvSlice("[]int64", tvInt("int64", a), tvInt("int64", b))}
+	}
+	for _, kind := range []string{"kgroups", "compact"} {
+		c := eCase{Kind: kind, Policy: "error", Configs: map[int]string{2: "ext_range", 3: "ext_range"}}
+		c.Docs = []eDoc{
+			{ID: 1, Cons: []eConj{{btw(2, 20, 30), btw(3, 60, 70), {F: 0, Inc: true, V: ints(5, 0)}}}},
+			{ID: 2, Cons: []eConj{{{F: 2, Inc: true, Op: 1, V: tvInt("int64", 25)}, {F: 3, Inc: true, Op: 2, V: tvInt("int64", 65)}, {F: 0, Inc: true, V: ints(4, 2)}}}},
+			{ID: 3, Cons: []eConj{{{F: 2, Inc: true, V: ints(3, 21)}, {F: 3, Inc: true, V: ints(3, 61)}}}},
+			{ID: 4, Cons: []eConj{{btw(2, 10, 400), btw(3, 50, 440), {F: 0, Inc: false, V: ints(3, 7)}}}},
+			{ID: -5, Cons: []eConj{{btw(3, 20, 30), btw(2, 60, 70), {F: 0, Inc: true, V: ints(6, 0)}}}},
+		}
+		for _, a := range []int64{22, 62, 26, 15, 300, 420} {
+			for _, b := range []int64{62, 22, 64, 66, 300, 420} {
+				c.Queries = append(c.Queries, eQuery{A: []eAssign{{F: 2, V: tvInt("int64", a)}, {F: 3, V: tvInt("int64", b)}, {F: 0, V: tvInt("int", 3)}}})
+			}
+		}
+		add(cacheIn{Cache: true, Case: c, Thr: 2, Seed: 93, MissPct: 0, DropPct: 0})
+		add(cacheIn{Cache: true, Case: c, Thr: 2, Seed: 94, MissPct: 30, DropPct: 0, Retain: true})
+	}
+}
+
 // rangeFloatBoundCases: > and < whose operand is a float (integral and fractional, negative and positive), probed at
 // the bound and next to it
 func rangeFloatBoundCases(add func(in interface{})) {
@@ -215,7 +248,7 @@ func rangeDocset(r *Rand, kind string, two bool) eCase {
 func init() {
 	props["C06"] = &propDef{
 		header:    "From BE Require Import Corr.CheckC06.",
-		headers:   map[string]string{"E": "From BE Require Import Corr.CheckE2E.", "H": "From BE Require Import Corr.CheckRange."},
+		headers:   map[string]string{"E": "From BE Require Import Corr.CheckE2E.", "H": "From BE Require Import Corr.CheckRange.", "C": "From BE Require Import Corr.CheckCache."},
 		rule:      c06Rule,
 		shardSize: 60,
 		gen: func(tier string, r *Rand, add func(in interface{})) {
@@ -225,6 +258,7 @@ func init() {
 			}
 			rangeSplitCases(add)
 			rangeFloatBoundCases(add)
+			rangeCachedCases(add)
 			for i := 0; i < n; i++ {
 				kind := "kgroups"
 				if i%2 == 1 {
@@ -233,6 +267,7 @@ func init() {
 				add(rangeDocset(r, kind, i%4 >= 2)) // half of them over two range fields: each must keep its own values and intervals
 			}
 			// RangeIdx insert histories (hook)
+			rangeDomainEdgeHists(add)
 			nh := 150
 			if tier == "thorough" {
 				nh = 20000
@@ -301,43 +336,80 @@ func init() {
 		},
 		exec: func(raw json.RawMessage) (execResult, error) {
 			var probe struct {
-				Hist bool `json:"hist"`
+				Hist  bool `json:"hist"`
+				Cache bool `json:"cache"`
 			}
 			json.Unmarshal(raw, &probe)
+			if probe.Cache {
+				return execCache(raw)
+			}
 			if !probe.Hist {
 				res, err := execE2E(raw)
 				res.Family = "E"
 				return res, err
 			}
-			var h histIn
-			if err := json.Unmarshal(raw, &h); err != nil {
-				return execResult{}, err
+			return execRangeHist(raw)
+		},
+	}
+}
+
+// execRangeHist: one RangeIdx insert history through the hook (pieces before Compile, Retrieve probes after it)
+func execRangeHist(raw json.RawMessage) (execResult, error) {
+	var h histIn
+	if err := json.Unmarshal(raw, &h); err != nil {
+		return execResult{}, err
+	}
+	var res execResult
+	res.Family = "H"
+	res.Dist = "history"
+	pieces, probes, ok := runRangeHistory(h.Min, h.Max, h.Ranges, h.Probes)
+	var hl []string
+	for _, x := range h.Ranges {
+		hl = append(hl, fmt.Sprintf("(%s, %s, %s)", zl(x[0]), zl(x[1]), nl(uint64(x[2]))))
+	}
+	if !ok {
+		res.Dist = "history/hook-unavailable"
+		res.Coq = fmt.Sprintf("Build_hcase %s %s %s None", zl(h.Min), zl(h.Max), listl(hl))
+		return res, nil
+	}
+	overlap := false
+	for i := range h.Ranges {
+		for j := i + 1; j < len(h.Ranges); j++ {
+			if h.Ranges[i][0] < h.Ranges[j][1] && h.Ranges[j][0] < h.Ranges[i][1] {
+				overlap = true
 			}
-			var res execResult
-			res.Family = "H"
-			res.Dist = "history"
-			pieces, probes, ok := runRangeHistory(h.Min, h.Max, h.Ranges, h.Probes)
-			var hl []string
-			for _, x := range h.Ranges {
-				hl = append(hl, fmt.Sprintf("(%s, %s, %s)", zl(x[0]), zl(x[1]), nl(uint64(x[2]))))
-			}
-			if !ok {
-				res.Dist = "history/hook-unavailable"
-				res.Coq = fmt.Sprintf("Build_hcase %s %s %s None", zl(h.Min), zl(h.Max), listl(hl))
-				return res, nil
-			}
-			overlap := false
-			for i := range h.Ranges {
-				for j := i + 1; j < len(h.Ranges); j++ {
-					if h.Ranges[i][0] < h.Ranges[j][1] && h.Ranges[j][0] < h.Ranges[i][1] {
-						overlap = true
-					}
+		}
+	}
+	res.NonTrivial = overlap
+	res.Summary = fmt.Sprintf("%d ranges", len(h.Ranges))
+	res.Coq = fmt.Sprintf("Build_hcase %s %s %s (Some (%s, %s))", zl(h.Min), zl(h.Max), listl(hl), pieces, probes)
+	return res, nil
+}
+
+// rangeDomainEdgeHists: a RangeIdx over a configured domain [min, max) (RangeHolderOption.RangeMin / RangeMax) and
+// ranges that end exactly at min, start exactly at max, touch, straddle or lie outside the domain, alone and after
+// ranges inside it: a range denoting no value of the domain must not come back as some value of it
+func rangeDomainEdgeHists(add func(in interface{})) {
+	for _, dom := range [][2]int64{{18, 100}, {-50, 50}, {0, 1 << 40}} {
+		mn, mx := dom[0], dom[1]
+		for _, rs := range [][][2]int64{
+			{{mn - 8, mn}}, {{mn - 1, mn}}, {{mn, mn}}, {{mn - 300, mn}}, {{mx, mx + 5}}, {{mx, mx}}, {{mx - 1, mx}}, {{mx - 1, mx + 1}}, {{mn - 5, mn + 5}}, {{mn - 5, mx + 5}},
+			{{mn, mn + 1}}, {{mn + 1, mn + 1}}, {{mn - 9, mn - 3}}, {{mx + 3, mx + 9}}, {{mn, mx}},
+			{{mn + 2, mn + 9}, {mn - 8, mn}, {mn, mn + 3}}, {{mn, mx}, {mn - 4, mn}, {mx, mx + 4}}, {{mn + 1, mx - 1}, {mn - 1, mn}, {mn - 1, mn + 1}, {mx - 1, mx}},
+		} {
+			h := histIn{Hist: true, Min: mn, Max: mx}
+			pts := map[int64]bool{mn: true, mn - 1: true, mn + 1: true, mx - 1: true, mx: true, mx + 1: true}
+			for i, rg := range rs {
+				h.Ranges = append(h.Ranges, [3]int64{rg[0], rg[1], int64(16*(100+i) + i%2)})
+				for _, p := range []int64{rg[0] - 1, rg[0], rg[0] + 1, rg[1] - 1, rg[1], rg[1] + 1} {
+					pts[p] = true
 				}
 			}
-			res.NonTrivial = overlap
-			res.Summary = fmt.Sprintf("%d ranges", len(h.Ranges))
-			res.Coq = fmt.Sprintf("Build_hcase %s %s %s (Some (%s, %s))", zl(h.Min), zl(h.Max), listl(hl), pieces, probes)
-			return res, nil
-		},
+			for p := range pts {
+				h.Probes = append(h.Probes, p)
+			}
+			sort.Slice(h.Probes, func(i, j int) bool { return h.Probes[i] < h.Probes[j] })
+			add(h)
+		}
 	}
 }
